@@ -14,9 +14,7 @@ theorem length_insertBy {α} (lt : α → α → Bool) (x : α) (l : List α) : 
   | nil => rfl
   | cons y ys ih =>
     simp only [insertBy]
-    split
-    · simp
-    · simp [ih]
+    split <;> simp [ih]
 
 theorem length_sortBy {α} (lt : α → α → Bool) (l : List α) : (sortBy lt l).length = l.length := by
   induction l with
@@ -29,8 +27,8 @@ theorem mem_insertBy {α} (lt : α → α → Bool) (x a : α) (l : List α) : a
   | cons y ys ih =>
     simp only [insertBy]
     split
-    · simp
     · simp only [List.mem_cons, ih]; tauto
+    · simp
 
 theorem mem_sortBy {α} (lt : α → α → Bool) (a : α) (l : List α) : a ∈ sortBy lt l ↔ a ∈ l := by
   induction l with
